@@ -313,7 +313,7 @@ func (s *grpcConnectionManager) connect(contact *contact) {
 	if err != nil { // failed to connect
 		log.Logger().WithError(err).WithFields(contact.peer.ToFields()).Debug("failed to open a grpc ClientConn")
 		errStatus, isStatusError := status.FromError(err)
-		if isStatusError && errStatus.Code() == codes.Canceled {
+		if (isStatusError && errStatus.Code() == codes.Canceled) || errors.Is(err, context.Canceled) {
 			// Do not backoff when context is cancelled
 			// Backoff might try to persist after stores are closed
 			// https://github.com/nuts-foundation/nuts-node/issues/1864
